@@ -492,6 +492,65 @@ static void lf_mutate(int kind, int mut, int seedno, vt_rng_t *rng, buf_t *res)
 	    }
 	}
 	break;
+    case M_KWREPEAT:
+	{
+	    /* repeat a keyword / header line further down with its numeric
+	     * argument changed (a second [Number of Ports], rows:, #:ports
+	     * ... that contradicts the first) */
+	    int cand[MAXLINES], nc = 0, src = -1, at = -1;
+
+	    split_lines(b);
+	    for (int i = 0; i < nlines; ++i) {
+		const char *s = b->p + lines_[i].off;
+		size_t n = lines_[i].len;
+		int digit = 0;
+
+		if (!is_keyword_line(kind, s, n))
+		    continue;
+		for (size_t j = 0; j < n; ++j)
+		    digit |= isdigit((unsigned char)s[j]) != 0;
+		if (digit)
+		    cand[nc++] = i;
+	    }
+	    if (nc > 0) {
+		src = cand[vt_below(rng, nc)];
+		at = src + 1 + vt_below(rng, nlines - src < 6 ? nlines - src : 6);
+	    }
+	    for (int i = 0; i <= nlines; ++i) {
+		if (i == at && src >= 0) {
+		    const char *s = b->p + lines_[src].off;
+		    size_t n = lines_[src].len, j = n;
+		    size_t e;
+		    char num[32];
+		    long v;
+
+		    /* last run of digits on the line */
+		    while (j > 0 && !isdigit((unsigned char)s[j - 1]))
+			--j;
+		    e = j;
+		    while (j > 0 && isdigit((unsigned char)s[j - 1]))
+			--j;
+		    v = strtol(s + j, NULL, 10);
+		    switch (vt_below(rng, 6)) {
+		    case 0:  v = v + 1; break;
+		    case 1:  v = v > 0 ? v - 1 : 1; break;
+		    case 2:  v = 2 * v + 1; break;
+		    case 3:  v = 0; break;
+		    case 4:  v = v + 7; break;
+		    default: break;		/* identical repeat */
+		    }
+		    snprintf(num, sizeof(num), "%ld", v);
+		    out_add(&o, s, j);
+		    out_str(&o, num);
+		    out_add(&o, s + e, n - e);
+		    if (n == 0 || s[n - 1] != '\n')
+			out_str(&o, "\n");
+		}
+		if (i < nlines)
+		    out_add(&o, b->p + lines_[i].off, lines_[i].len);
+	    }
+	}
+	break;
     case M_SPLICE:
 	{
 	    const buf_t *b2 = &seeds[kind][vt_below(rng, nseeds[kind])];
